@@ -439,6 +439,119 @@ fn strip_cond_negation(c: CondSpec) -> CondSpec {
     }
 }
 
+/// Rules shaped like the optimiser's targets: few fields shared between identifiers and entries
+/// (same-field searches to merge, same-holder nested blocks, or-groups over shared fields for the
+/// matrix), combined by flat and/or chains.
+pub fn rule_focus(with_neg: bool) -> BoxedStrategy<RuleSpec> {
+    let pat = || {
+        prop_oneof![
+            3 => "[ab]{1,2}".prop_map(|n| n.to_string()),
+            2 => "[ab]{1,2}".prop_map(|n| format!("*{n}*")),
+            1 => "[ab]{1,2}".prop_map(|n| format!("{n}*")),
+            1 => "[ab]{1,2}".prop_map(|n| format!("i*{n}")),
+            1 => prop::sample::select(vec!["?a", "?.*ab", "?b$", "i?a.*"]).prop_map(|s| s.to_string()),
+        ]
+        .prop_map(ValSpec::Str)
+    };
+    let inner_entry = (prop::sample::select(vec!["x", "y"]), pat())
+        .prop_map(|(f, v)| Entry { key: KeySpec::plain(f), val: v });
+    let inner_block = prop::collection::vec(inner_entry, 1..=2).prop_map(|mut es| {
+        es.dedup_by(|a, b| a.key.field == b.key.field);
+        if es.len() == 2 && es[0].key.field == es[1].key.field {
+            es.pop();
+        }
+        Block(es)
+    });
+    let entry = prop_oneof![
+        4 => (prop::sample::select(vec!["f1", "f2"]), pat()).prop_map(|(f, v)| Entry { key: KeySpec::plain(f), val: v }),
+        2 => (prop::sample::select(vec!["f1", "f2"]), prop::collection::vec(pat(), 2..=3))
+            .prop_map(|(f, l)| Entry { key: KeySpec::plain(f), val: ValSpec::List(l) }),
+        3 => (prop::sample::select(vec!["o1", "objs"]), inner_block)
+            .prop_map(|(h, b)| Entry { key: KeySpec::plain(h), val: ValSpec::Block(b) }),
+        1 => (prop::sample::select(vec!["n1"]), small_int()).prop_map(|(f, i)| Entry { key: KeySpec::plain(f), val: ValSpec::Int(i) }),
+        1 => (prop::sample::select(vec!["f1", "n1"]), small_int())
+            .prop_map(|(f, i)| Entry { key: KeySpec { modifier: KMod::Int, field: f.to_string() }, val: ValSpec::Int(i) }),
+    ];
+    let blk = prop::collection::vec(entry, 1..=3).prop_map(|es| {
+        let mut seen: Vec<String> = vec![];
+        Block(
+            es.into_iter()
+                .filter(|e| {
+                    let t = e.key.text();
+                    if seen.contains(&t) {
+                        false
+                    } else {
+                        seen.push(t);
+                        true
+                    }
+                })
+                .collect(),
+        )
+    });
+    let body = prop_oneof![
+        3 => blk.clone().prop_map(Body::Map),
+        2 => prop::collection::vec(blk, 2..=4).prop_map(Body::Seq),
+    ];
+    (prop::collection::vec(body, 2..=4), 0u8..8, any::<u8>())
+        .prop_map(move |(bodies, form, bits)| {
+            let names: Vec<String> = IDENT_NAMES_PLAIN.iter().take(bodies.len()).map(|s| s.to_string()).collect();
+            let lit = |i: usize| -> CondSpec {
+                let base = CondSpec::Ident(names[i].clone());
+                if with_neg && (bits >> i) & 1 == 1 && form >= 6 {
+                    CondSpec::Not(Box::new(base))
+                } else {
+                    base
+                }
+            };
+            let chain = |and: bool| -> CondSpec {
+                let mut c = lit(0);
+                for i in 1..names.len() {
+                    c = if and {
+                        CondSpec::And(Box::new(c), Box::new(lit(i)))
+                    } else {
+                        CondSpec::Or(Box::new(c), Box::new(lit(i)))
+                    };
+                }
+                c
+            };
+            let cond = match form {
+                0 | 6 => chain(true),
+                1 | 7 => chain(false),
+                2 => {
+                    // (A and B) or C ...
+                    let mut c = CondSpec::And(Box::new(lit(0)), Box::new(lit(1)));
+                    for i in 2..names.len() {
+                        c = CondSpec::Or(Box::new(c), Box::new(lit(i)));
+                    }
+                    c
+                }
+                3 => {
+                    let mut c = CondSpec::Or(Box::new(lit(0)), Box::new(lit(1)));
+                    for i in 2..names.len() {
+                        c = CondSpec::And(Box::new(CondSpec::Paren(Box::new(c))), Box::new(lit(i)));
+                    }
+                    c
+                }
+                4 => {
+                    if with_neg {
+                        CondSpec::Not(Box::new(CondSpec::Paren(Box::new(chain(true)))))
+                    } else {
+                        chain(true)
+                    }
+                }
+                _ => {
+                    if with_neg {
+                        CondSpec::Not(Box::new(CondSpec::Paren(Box::new(chain(false)))))
+                    } else {
+                        chain(false)
+                    }
+                }
+            };
+            RuleSpec { idents: names.iter().cloned().zip(bodies).collect(), cond }
+        })
+        .boxed()
+}
+
 // ---------------------------------------------------------------------------------------------
 // Documents
 // ---------------------------------------------------------------------------------------------
